@@ -34,7 +34,8 @@ def nilDstPanics (acfg : AssignCfg) (dk : DynKind) (s : Src) (noBuf : Bool) : Bo
      -- a buffer …` it writes `*dst` only when the conversion succeeded, like the buffered branch
      | _ => if noBuf && acfg.strAppendsOld then true else (match renderSrc s with | .unknown => false | _ => true))
   | .bool => s.kind.family != .foreign
-  | .foreign => false
+  -- no arm matches the destination, but AssignToInt/Uint/Float read the source before they look at it
+  | .foreign => (match assignM acfg .foreign (.int 0) s noBuf with | .panic => true | _ => false)
   | _ => (match assignM acfg dk (.int 0) s noBuf with | .no => false | _ => true)
 
 /-- `inspector.AssignBuf(&v | v, value, buf)` on a leaf node holding `old` (pointer level as the node says).
